@@ -72,6 +72,7 @@ type GhostDecl struct {
 	Name string
 	Type string
 	Src  string
+	Pkg  string
 }
 
 type SpecFunc struct {
@@ -80,6 +81,7 @@ type SpecFunc struct {
 	Ret    string
 	Body   Expr // nil => uninterpreted
 	Src    string
+	Pkg    string
 }
 
 type Axiom struct {
@@ -187,7 +189,7 @@ func (cs *ContractSet) parseContractText(text, file, pkgPath string) error {
 			if len(f) != 2 {
 				return fail(fmt.Errorf("ghost $name type"))
 			}
-			cs.Ghosts[f[0]] = &GhostDecl{Name: f[0], Type: resolveTypeAliases(strings.TrimSpace(f[1]), pkgPath, imports), Src: src}
+			cs.Ghosts[f[0]] = &GhostDecl{Name: f[0], Type: resolveTypeAliases(strings.TrimSpace(f[1]), pkgPath, imports), Src: src, Pkg: pkgPath}
 			cur = nil
 		case strings.HasPrefix(s, "spec func "):
 			sf, err := parseSpecFunc(strings.TrimPrefix(s, "spec func "), pkgPath, imports)
@@ -195,6 +197,7 @@ func (cs *ContractSet) parseContractText(text, file, pkgPath string) error {
 				return fail(err)
 			}
 			sf.Src = src
+			sf.Pkg = pkgPath
 			cs.Specs[sf.Name] = sf
 			cur = nil
 		case strings.HasPrefix(s, "axiom ") || strings.HasPrefix(s, "lemma "):
